@@ -2,6 +2,7 @@
 raw text / key attached on every explicit path, non-empty messages, rendering clamps)."""
 from .core import run_property, AnalysisIncomplete, walk, peel, last_seg, calls_in, callee_all, strip_generics, src_facts
 from .den import Evaluator, Unanalysable
+from . import parsemodel as pm
 
 PROP = 'C15'
 DE = 'serde::de::Deserializer'
@@ -281,6 +282,188 @@ def r6_depth_cause(rep, facts):
     rep.check(R, 'key::key|check_depth-filter', found == ['try_map'], f'{found}', f'the depth check in key() is attached with {found or "no filter"}: the rejection has no message', facts.loc(b))
 
 
+def _leaf(fn, t, what):
+    return (fn.replace(pm.P, ''), what, t.get('l'))
+
+
+def bare_failures(g):
+    """{parser fn: (leaves whose failure can leave it as a Backtrack error without any context or cause, the same for Cut errors)}.
+    winnow's ContextError renders to the empty string exactly when nothing on the way out of the failing parser called `.context(..)` and the error
+    has no external cause (try_map / from_external_error).  Lookahead is followed: a parser chosen by `dispatch!{peek(any); ..}` cannot fail on the
+    byte that selected it.  A hand-written loop returns an inner failure with `?`; repeat(0..) / opt swallow a Backtrack."""
+    memo = {d: (frozenset(), frozenset()) for d in g.terms}
+
+    def bare(t, fn, penv, depth=0, ahead=None):
+        """(leaves whose failure leaves t as a Backtrack without any context or cause, the same for Cut)"""
+        op = t['op']
+        E = frozenset()
+        if op == 'tok':
+            mn = t['min'] if not isinstance(t['min'], tuple) else 1
+            if not mn:
+                return E, E
+            if ahead is not None and mn == 1 and ahead <= t['set']:
+                return E, E         # the byte was looked at before this parser was chosen
+            return frozenset([_leaf(fn, t, t.get('kind') or 'token')]), E
+        if op == 'lit':
+            if ahead is not None and len(t['bytes']) == 1 and ahead <= frozenset(t['bytes'][:1]):
+                return E, E
+            return frozenset([_leaf(fn, t, 'literal ' + repr(bytes(t['bytes']))[1:])]), E
+        if op in ('eof', 'fail', 'top'):
+            return frozenset([_leaf(fn, t, op if op != 'top' else 'unmodelled: ' + str(t.get('why')))]), E
+        if op == 'empty':
+            return E, E
+        if op == 'not':
+            return frozenset([_leaf(fn, t, 'not(..)')]), bare(t['p'], fn, penv, depth)[1]
+        if op == 'peek':
+            return bare(t['p'], fn, penv, depth, ahead)
+        if op == 'opt':
+            return E, bare(t['p'], fn, penv, depth, ahead)[1]
+        if op == 'rep':
+            bb, bc = bare(t['p'], fn, penv, depth, ahead if t['min'] and t['min'] > 0 else None)
+            if t.get('handloop'):
+                return bb, bc       # a hand-written loop leaves through `break`; a failing step inside it is returned with `?`
+            return (bb if t['min'] and t['min'] > 0 else E), bc
+        if op == 'sep':
+            bb, bc = bare(t['p'], fn, penv, depth)
+            sb, sc = bare(t['sep'], fn, penv, depth)
+            return (bb if t['min'] and t['min'] > 0 else E), bc | sc
+        if op == 'seq':
+            bb, bc = E, E
+            cur = ahead
+            for c in t['items']:
+                x, y = bare(c, fn, penv, depth, cur)
+                bb, bc = bb | x, bc | y
+                if not (c['op'] in ('peek', 'not', 'empty') or (c['op'] == 'map' and c['p']['op'] == 'peek')):
+                    cur = None
+            return bb, bc
+        if op == 'alt':
+            node = t.get('node') or {}
+            is_winnow_alt = node.get('k') == 'call' and last_seg((peel(node.get('f', {})).get('path') or '')) == 'alt'
+            bb, bc = E, E
+            for i, c in enumerate(t['items']):
+                x, y = bare(c, fn, penv, depth, ahead)
+                if not is_winnow_alt or i == len(t['items']) - 1:
+                    bb = bb | x
+                bc = bc | y
+            return bb, bc
+        if op == 'dispatch':
+            bb, bc = E, E
+            sc = t['scrut']
+            peeked = False
+            x0 = sc
+            while x0.get('op') in ('map', 'opt', 'peek'):
+                if x0['op'] == 'peek':
+                    peeked = True
+                x0 = x0['p']
+            rows = g.dispatch_rows(t) if (peeked and x0.get('op') == 'tok' and (x0['min'], x0['max']) == (1, 1)) else None
+            if rows is not None and all(r[0] is not None for r in rows):
+                for sset, a in rows:
+                    sub = sset if ahead is None else (sset & ahead)
+                    if ahead is not None and not sub:
+                        continue
+                    x, y = bare(a['p'], fn, penv, depth, sub)
+                    bb, bc = bb | x, bc | y
+            else:
+                for a in t['arms']:
+                    x, y = bare(a['p'], fn, penv, depth)
+                    bb, bc = bb | x, bc | y
+            if not t.get('bound'):
+                x, y = bare(t['scrut'], fn, penv, depth, ahead)
+                bb, bc = bb | x, bc | y
+            return bb, bc
+        if op == 'checkrec':
+            return bare(t['p'], fn, penv, depth, ahead)
+        if op == 'and_then':
+            x, y = bare(t['p'], fn, penv, depth, ahead)
+            x2, y2 = bare(t['q'], fn, penv, depth)
+            return x | x2, y | y2
+        if op == 'map':
+            k = t['kind']
+            bb, bc = bare(t['p'], fn, penv, depth, ahead)
+            if k == 'context':
+                return E, E
+            if k == 'cut':
+                return E, bb | bc
+            if k == 'backtrack':
+                return bb | bc, E
+            if k in ('verify', 'verify_map', 'parse_to'):
+                return bb | frozenset([_leaf(fn, t, k)]), bc
+            return bb, bc       # map / try_map (the external error is the cause) / span / value ...
+        if op == 'param':
+            if t['name'] in penv:
+                return penv[t['name']]
+            return frozenset([_leaf(fn, t, 'parser parameter ' + str(t['name']).split('#')[0])]), E
+        if op == 'ref' and ahead is not None and depth < 6 and g.terms.get(t['fn']) is not None:
+            return bare(g.terms[t['fn']], t['fn'], {}, depth + 1, ahead)
+        if op == 'ref':
+            return memo.get(t['fn'], (frozenset([_leaf(fn, t, 'unknown parser ' + t['fn'])]), E))
+        if op == 'call':
+            callee = g.terms.get(t['fn'])
+            if callee is None or depth > 4:
+                return memo.get(t['fn'], (frozenset([_leaf(fn, t, 'unknown parser ' + t['fn'])]), E))
+            # parser-typed arguments stand for the callee's parser parameters
+            b = g.facts.bodies.get(t['fn'])
+            names = [p_['name'] for p_ in (b.get('params', []) if b else []) if p_.get('k') == 'p_bind']
+            env2 = {}
+            for nm, a in zip(names, t['args']):
+                if a is not None:
+                    env2[nm] = bare(a, fn, penv, depth)
+            return bare(callee, t['fn'], env2, depth + 1, ahead)
+        return frozenset([_leaf(fn, t, 'unmodelled term ' + op)]), E
+
+    for _ in range(30):
+        changed = False
+        for d, t in g.terms.items():
+            if t is None:
+                continue
+            v = bare(t, d, {})
+            if v != memo[d]:
+                memo[d] = v
+                changed = True
+        if not changed:
+            break
+    return memo
+
+
+ENTRY_POINTS = (('document', 'toml_edit::parser::parse_document', 'document::document'), ('value', 'toml_edit::parser::parse_value', 'value::value'),
+                ('key', 'toml_edit::parser::parse_key', 'key::simple_key'), ('key-path', 'toml_edit::parser::parse_key_path', 'key::key'))
+
+
+def r7_nonempty_message(rep, facts):
+    R = rep.rule('C15/R7', 'a parse error has a non-empty message: TomlError::new renders winnow\'s ContextError, which is empty unless some parser on the way out of the '
+                 'failure attached a context or the error has a cause.  For each parse entry point, every token / literal / eof / verify whose failure can reach '
+                 'the caller bare (through repeat / opt / alt / cut_err / dispatch, with lookahead followed) is reported', floor=4)
+    from . import parsemodel as pm
+    g = pm.model(facts)
+    memo = bare_failures(g)
+    for entry, fn, parser in ENTRY_POINTS:
+        if not facts.has_body(fn):
+            rep.incomplete(R, f'{entry}|entry', f'`{fn}` not found')
+            continue
+        b = facts.body(fn)
+        uses = any(last_seg(c) == last_seg(parser) and pm.P + parser == strip_generics(c) for x in walk(b['body']) for c in ([x.get('path')] if x.get('k') == 'path' and x.get('res') in ('Fn', 'AssocFn') else []))
+        term = g.terms.get(pm.P + parser)
+        if not uses or term is None:
+            rep.incomplete(R, f'{entry}|entry', f'`{fn}` no longer runs `{parser}` (or the parser is not modelled): the entry point table of this rule is out of date', facts.loc(b))
+            continue
+        bb, bc = memo[pm.P + parser]
+        leaves = {}
+        for (lf, what, line) in sorted(bb | bc, key=str):
+            leaves.setdefault((lf, what), line)
+        # Parser::parse demands the end of the input after the parser: a bare failure unless the parser itself ends in `eof`
+        t = term
+        while t.get('op') == 'map':
+            t = t['p']
+        ends_in_eof = t.get('op') == 'seq' and t['items'] and t['items'][-1].get('op') == 'eof'
+        if not ends_in_eof:
+            leaves[(parser, 'end of input demanded by Parser::parse')] = b.get('line')
+        rep.ok(R, f'{entry}|entry', f'`{parser}`: {len(leaves)} bare failure points', facts.loc(b))
+        for (lf, what), line in sorted(leaves.items(), key=str):
+            fb = facts.bodies.get(pm.P + lf) or b
+            rep.bad(R, f'{entry}|{lf}:{what}', f'`{fn}`: a failure of {what} in `{lf}` reaches the caller without any `.context(..)` or cause: the error message of such an input is the '
+                    f'empty string', f"{facts.rel(fb.get('file'))}:{line}")
+
+
 def rules(rep, facts):
     feats = set(facts.crates.get('toml_edit', {}).get('features', []))
     if 'toml_edit' not in facts.crates:
@@ -298,6 +481,7 @@ def rules(rep, facts):
         r1_provenance(rep, facts)
         rep.relabel('C14/R1', 'C15/R5', 'the spans errors are located with exist and are well-formed: ')
         r6_depth_cause(rep, facts)
+        r7_nonempty_message(rep, facts)
 
 
 def run(tier):
